@@ -43,7 +43,8 @@ RULE = ("a case is one history on one container. Q: 5..60 operations on a Charac
         "coordinates 0/1 or random, 3..60 (thorough: ..300) operations, coordinates from a pool of 11 values (equal "
         "coordinates frequent) or uniform, keys from a pool of 7 values or uniform; E: all sequences over an alphabet of "
         "8 operations. Non-trivial: at least one insert and one best-interval request (S, E) resp. one Insert and one "
-        "GetBestItem (Q); distinct by the literal operation list.")
+        "GetBestItem (Q); distinct by the literal operation list. In 15% of the S histories a second container of the same class is "
+        "alive and receives its own insertions / best-interval requests between the steps.")
 
 KEY_POOL = [0.0, 1.0, 1.0, 2.5, -1.0, 3.0, 0.5, -math.inf]
 
@@ -210,7 +211,10 @@ def gen_s_history(r, maxops, dual=None, maxlen="rand"):
             ops.append(["setl" if dual else "setg", r.randrange(nitems), _jkey(key())])
         else:
             ops.append(["find", r.choice(pool + [x0 - 1.0, x0, x1, x1 + 1.0, math.nextafter(x1, -math.inf)])])
-    return {"part": "S", "dual": dual, "maxlen": maxlen, "ops": ops}
+    h = {"part": "S", "dual": dual, "maxlen": maxlen, "ops": ops}
+    if r.random() < 0.15:
+        h["mate"] = True        # a second container of the same class is alive and operated on between the steps
+    return h
 
 
 class _Run:
@@ -220,11 +224,27 @@ class _Run:
         self.dual = h["dual"]
         self.maxlen = h["maxlen"]
         self.sd = (SearchDataDualQueue if self.dual else SearchData)(None, self.maxlen)
+        self.mate = None
+        if h.get("mate"):
+            # another container (unbounded queue) living next to the one under test: what happens to it must not matter
+            self.mate = (SearchDataDualQueue if self.dual else SearchData)(None, None)
+            self.mate.InsertFirstDataItem(_mk_item(0.0, 0.0, 0.0), _mk_item(1.0, 7.5, 7.5))
         self.items = []        # by insertion id
         self.order = []        # specification: insertion ids sorted by (x, id)
         self.viol = []
         self.npop = self.nins = 0
         self.stats = Counter()
+
+    def mate_step(self, k):
+        if self.mate is None:
+            return
+        if k % 3 == 0:
+            x = ((k * 0.37) % 1.0) or 0.5
+            self.mate.InsertDataItem(_mk_item(x, float(k % 7) + 10.0, float(k % 5) + 10.0))
+        elif k % 3 == 1:
+            self.mate.GetDataItemWithMaxGlobalR()
+        elif k % 7 == 2:
+            self.mate.RefillQueue()
 
     # -------------------------------------------------------------- observation
     def gq(self):
@@ -516,6 +536,7 @@ def run_s_history(h, maxviol=1):
         with _watchdog(10.0):
             for step, op in enumerate(h["ops"]):
                 try:
+                    run_.mate_step(step)
                     run_.step(step, op)
                 except _Timeout:
                     raise
